@@ -24,6 +24,7 @@ import (
 	"go/ast"
 	"go/token"
 	"go/types"
+	"os"
 	"reflect"
 
 	"rscheck/cfgq"
@@ -38,11 +39,21 @@ type Inliner struct {
 	memo     map[*ast.FuncDecl]*core.Fn
 	nlabel   int
 	threaded map[ast.Stmt]bool // tests already re-threaded (rethread.go)
+	scratch  []*ast.FuncDecl   // declarations analysed while a view was built (kept alive: graph caches are keyed by address)
 }
 
 // NewInliner creates an inliner; keep names the functions that stay calls.
 func NewInliner(p *core.Program, keep func(*types.Func) bool) *Inliner {
-	return &Inliner{Prog: p, Keep: keep, MaxDepth: 2, memo: map[*ast.FuncDecl]*core.Fn{}, threaded: map[ast.Stmt]bool{}}
+	in := &Inliner{Prog: p, Keep: keep, MaxDepth: 2, memo: map[*ast.FuncDecl]*core.Fn{}, threaded: map[ast.Stmt]bool{}}
+	// The views this inliner hands out (copied declarations, function literals) are used as keys of
+	// per-Program caches that identify a body by its address (cfgq.Of / cfgq.OfLit). They must therefore
+	// live as long as the Program: were they collected, a later allocation could reuse an address and be
+	// served the cached graph of a different function. Pin the inliner to the Program.
+	if p != nil && p.Shared != nil {
+		pinned, _ := p.Shared["flow.inliners"].([]*Inliner)
+		p.Shared["flow.inliners"] = append(pinned, in)
+	}
+	return in
 }
 
 // Fn returns fn with an inlined copy of its body (memoised; nil stays nil).
@@ -58,6 +69,12 @@ func (in *Inliner) Fn(fn *core.Fn) *core.Fn {
 	rethread(in, fn.Pkg.TypesInfo, body)
 	decl := *fn.Decl
 	decl.Body = body
+	if os.Getenv("RS_NO_UNDEFER") == "" {
+		undefer(fn.Pkg.TypesInfo, fn.Pkg.Types, &decl)
+	}
+	if os.Getenv("RS_NO_PROPAGATE") == "" {
+		propagate(in, fn, &decl)
+	}
 	out := &core.Fn{Obj: fn.Obj, Decl: &decl, Pkg: fn.Pkg}
 	in.memo[fn.Decl] = out
 	return out
@@ -78,6 +95,7 @@ type retPolicy struct {
 	named   []types.Object // named results of the helper
 	orig    *core.Fn       // the helper (for error classification on original nodes)
 	origRet map[*ast.ReturnStmt]*ast.ReturnStmt
+	after   func() []ast.Stmt // the caller's `return ..` that follows the call, copied behind every return site (nil: none)
 }
 
 type cloner struct {
@@ -88,10 +106,13 @@ type cloner struct {
 	stack []*types.Func
 	ret   *retPolicy // nil: returns are copied unchanged
 	inLit int
-	outer ast.Node                  // body of the function (or helper) being copied (for single-assignment tests)
-	root  ast.Node                  // body of the function in which closure variables are looked up
-	lits  []*ast.FuncLit            // closures being inlined (recursion guard)
-	deref map[types.Object]ast.Expr // pointer local -> the variable it points to (`out := &b`): *out reads as b
+	outer ast.Node                      // body of the function (or helper) being copied (for single-assignment tests)
+	root  ast.Node                      // body of the function in which closure variables are looked up
+	lits  []*ast.FuncLit                // closures being inlined (recursion guard)
+	deref map[types.Object]ast.Expr     // pointer local -> the variable it points to (`out := &b`): *out reads as b
+	next2 ast.Stmt                      // the statement behind the one that follows a call being inlined, when it is a test too
+	used2 bool                          // ... and it was consumed (threaded into) as well
+	funcs map[types.Object]*ast.FuncLit // function-typed parameter -> the literal the call passes for it (only ever called)
 }
 
 var (
@@ -124,6 +145,12 @@ func (cl *cloner) val(v reflect.Value) reflect.Value {
 		if id, ok := v.Interface().(*ast.Ident); ok && id != nil {
 			out.Set(reflect.ValueOf(cl.ident(id))) // an expression position: may be substituted by any simple expression
 			return out
+		}
+		if call, ok := v.Interface().(*ast.CallExpr); ok && v.Type() == exprType {
+			if m := cl.macro(call); m != nil {
+				out.Set(reflect.ValueOf(m))
+				return out
+			}
 		}
 		out.Set(cl.val(v.Elem()))
 		return out
@@ -254,6 +281,10 @@ func (cl *cloner) retarget(e ast.Expr, pos token.Pos) ast.Expr {
 			cl.register(x, c)
 			return c
 		}
+	case *ast.IndexExpr:
+		c := &ast.IndexExpr{X: cl.retarget(x.X, pos), Lbrack: pos, Index: cl.retarget(x.Index, pos), Rbrack: pos}
+		cl.register(x, c)
+		return c
 	case *ast.ArrayType, *ast.StarExpr, *ast.MapType, *ast.InterfaceType:
 		return x // a type expression inside a conversion
 	}
@@ -312,14 +343,27 @@ func (cl *cloner) stmts(list []ast.Stmt) []ast.Stmt {
 		var next ast.Stmt
 		if i+1 < len(list) {
 			switch list[i+1].(type) {
-			case *ast.IfStmt, *ast.SwitchStmt:
+			case *ast.IfStmt, *ast.SwitchStmt, *ast.ReturnStmt:
 				next = list[i+1]
 			}
 		}
-		if ss, used := cl.stmt(s, next); ss != nil {
+		cl.next2 = nil
+		if next != nil && i+2 < len(list) {
+			switch list[i+2].(type) {
+			case *ast.IfStmt, *ast.SwitchStmt:
+				cl.next2 = list[i+2]
+			}
+		}
+		ss, used := cl.stmt(s, next)
+		used2 := cl.used2
+		cl.next2, cl.used2 = nil, false
+		if ss != nil {
 			out = append(out, ss...)
 			if used {
 				i++
+				if used2 {
+					i++
+				}
 			}
 			continue
 		}
@@ -399,10 +443,44 @@ func (cl *cloner) copyProp(s ast.Stmt, rest []ast.Stmt) bool {
 		default:
 			return false // only plain names are propagated: a computed value keeps its own variable
 		}
-		if !cl.simple(src) {
-			return false
-		}
 		if _, isFunc := cl.info.TypeOf(src).Underlying().(*types.Signature); isFunc {
+			// a function or method value bound to a local that is only ever called (`read := r.Read;
+			// read(b)`, `copyChunk := utils.Iocopy`): the calls are calls of that function. A method value
+			// fixes its receiver when it is bound, so the receiver must be a variable that does not change.
+			if !onlyCalled(cl.info, cl.outer, obj) {
+				return false
+			}
+			switch x := src.(type) {
+			case *ast.Ident:
+				if _, isFn := cl.info.Uses[x].(*types.Func); !isFn {
+					return false
+				}
+			case *ast.SelectorExpr:
+				if !cl.simple(src) {
+					sl := cl.info.Selections[x]
+					rid, isID := ast.Unparen(x.X).(*ast.Ident)
+					if sl == nil || sl.Kind() != types.MethodVal || !isID {
+						return false
+					}
+					rv, isVar := cl.info.Uses[rid].(*types.Var)
+					if !isVar || rv.IsField() {
+						return false
+					}
+					for _, r := range rest {
+						if Assignments(cl.info, r, rv) > 0 {
+							return false
+						}
+					}
+				} else if _, isFn := cl.info.Uses[x.Sel].(*types.Func); !isFn {
+					return false
+				}
+			default:
+				return false
+			}
+			binds = append(binds, bindg{obj: obj, src: src})
+			continue
+		}
+		if !cl.simple(src) {
 			return false
 		}
 		if sid, ok := src.(*ast.Ident); ok {
@@ -534,7 +612,37 @@ func (cl *cloner) stmt(s ast.Stmt, next ast.Stmt) (out []ast.Stmt, usedNext bool
 				}
 			}
 		}
+	case *ast.ForStmt:
+		// `for !attempt() {..}` with attempt a helper or a known closure: the call is made a statement of its own
+		// at the head of the body (`for { ok := attempt(); if ok { break }; .. }`), where it can be expanded
+		if x.Init == nil && x.Post == nil && x.Cond != nil && cl.inLit == 0 {
+			cond, neg := ast.Unparen(x.Cond), false
+			if u, isNot := cond.(*ast.UnaryExpr); isNot && u.Op == token.NOT {
+				cond, neg = ast.Unparen(u.X), true
+			}
+			if call, isCall := cond.(*ast.CallExpr); isCall && cl.inlinable(call) != nil {
+				if t := cl.info.TypeOf(call); t != nil && types.Identical(t.Underlying(), types.Typ[types.Bool]) {
+					v := types.NewVar(call.Pos(), cl.pkg, "_cond", t)
+					def := &ast.Ident{NamePos: call.Pos(), Name: "_cond"}
+					use := &ast.Ident{NamePos: call.Pos(), Name: "_cond"}
+					cl.info.Defs[def], cl.info.Uses[use] = v, v
+					cl.info.Types[use] = types.TypeAndValue{Type: t}
+					as := &ast.AssignStmt{Lhs: []ast.Expr{def}, TokPos: call.Pos(), Tok: token.DEFINE, Rhs: []ast.Expr{call}}
+					var test ast.Expr = use
+					if !neg {
+						test = &ast.UnaryExpr{OpPos: call.Pos(), Op: token.NOT, X: use}
+						cl.info.Types[test] = types.TypeAndValue{Type: t}
+					}
+					leave := &ast.IfStmt{If: call.Pos(), Cond: test, Body: &ast.BlockStmt{Lbrace: call.Pos(), List: []ast.Stmt{&ast.BranchStmt{TokPos: call.Pos(), Tok: token.BREAK}}, Rbrace: call.End()}}
+					loop := &ast.ForStmt{For: x.For, Body: &ast.BlockStmt{Lbrace: x.Body.Lbrace, List: append([]ast.Stmt{as, leave}, x.Body.List...), Rbrace: x.Body.Rbrace}}
+					return []ast.Stmt{cl.node(loop).(ast.Stmt)}, false
+				}
+			}
+		}
 	case *ast.IfStmt:
+		if ss := cl.tableSwitch(x); ss != nil {
+			return ss, false
+		}
 		if as, ok := x.Init.(*ast.AssignStmt); ok {
 			if call, h := cl.callAssign(as); h != nil {
 				bare := *x
@@ -548,6 +656,167 @@ func (cl *cloner) stmt(s ast.Stmt, next ast.Stmt) (out []ast.Stmt, usedNext bool
 		}
 	}
 	return nil, false
+}
+
+// tableSwitch rewrites a lookup in a constant table of closures
+//
+//	if h, ok := table[key]; ok { ..h().. } else { E }
+//
+// (table a local bound once to a map literal with constant keys and function
+// literals as values, never written; h only called) into the switch it stands
+// for: `switch key { case k1: ..lit1().. ; case k2: ..lit2().. ; default: E }`,
+// with the calls of h expanded like any closure call.
+func (cl *cloner) tableSwitch(x *ast.IfStmt) []ast.Stmt {
+	as, ok := x.Init.(*ast.AssignStmt)
+	if !ok || as.Tok != token.DEFINE || len(as.Lhs) != 2 || len(as.Rhs) != 1 || cl.inLit > 0 {
+		return nil
+	}
+	ix, ok := ast.Unparen(as.Rhs[0]).(*ast.IndexExpr)
+	if !ok {
+		return nil
+	}
+	hid, _ := as.Lhs[0].(*ast.Ident)
+	okid, _ := as.Lhs[1].(*ast.Ident)
+	cid, _ := ast.Unparen(x.Cond).(*ast.Ident)
+	if hid == nil || okid == nil || cid == nil || cl.info.Uses[cid] == nil || cl.info.Uses[cid] != cl.info.Defs[okid] {
+		return nil
+	}
+	hobj, okobj := cl.info.Defs[hid], cl.info.Defs[okid]
+	tid, isID := ast.Unparen(ix.X).(*ast.Ident)
+	if !isID || hobj == nil {
+		return nil
+	}
+	tv, isVar := cl.info.Uses[tid].(*types.Var)
+	if !isVar || tv.IsField() || Assignments(cl.info, cl.root, tv) != 1 {
+		return nil
+	}
+	lit, isLit := ast.Unparen(ValueOf(cl.info, cl.root, tid)).(*ast.CompositeLit)
+	if !isLit {
+		return nil
+	}
+	if _, isMap := cl.info.TypeOf(lit).Underlying().(*types.Map); !isMap {
+		return nil
+	}
+	// the table is only ever indexed for reading
+	bad := false
+	core.InspectAll(cl.root, func(n ast.Node) bool {
+		switch m := n.(type) {
+		case *ast.AssignStmt:
+			for _, l := range m.Lhs {
+				if lx, ok := ast.Unparen(l).(*ast.IndexExpr); ok && IsObj(cl.info, tv)(lx.X) {
+					bad = true
+				}
+			}
+		case *ast.CallExpr:
+			for _, a := range m.Args {
+				if IsObj(cl.info, tv)(a) {
+					bad = true
+				}
+			}
+		case *ast.UnaryExpr:
+			if m.Op == token.AND && IsObj(cl.info, tv)(m.X) {
+				bad = true
+			}
+		case *ast.RangeStmt:
+			if IsObj(cl.info, tv)(m.X) {
+				bad = true
+			}
+		}
+		return !bad
+	})
+	if bad {
+		return nil
+	}
+	var keys []ast.Expr
+	var vals []*ast.FuncLit
+	for _, el := range lit.Elts {
+		kv, keyed := el.(*ast.KeyValueExpr)
+		if !keyed {
+			return nil
+		}
+		if tvk, has := cl.info.Types[kv.Key]; !has || tvk.Value == nil {
+			return nil
+		}
+		fl, isFn := ast.Unparen(kv.Value).(*ast.FuncLit)
+		if !isFn {
+			return nil
+		}
+		keys, vals = append(keys, kv.Key), append(vals, fl)
+	}
+	if len(keys) == 0 {
+		return nil
+	}
+	// h is only called, and only in the then-branch; ok is only the condition; no labels to duplicate
+	if !onlyCalled(cl.info, x.Body, hobj) {
+		return nil
+	}
+	clean := true
+	core.InspectAll(x.Body, func(n ast.Node) bool {
+		switch m := n.(type) {
+		case *ast.LabeledStmt:
+			clean = false
+		case *ast.Ident:
+			if cl.info.Uses[m] == okobj {
+				clean = false
+			}
+		}
+		return clean
+	})
+	if x.Else != nil {
+		core.InspectAll(x.Else, func(n ast.Node) bool {
+			if id, ok := n.(*ast.Ident); ok && (cl.info.Uses[id] == okobj || cl.info.Uses[id] == hobj) {
+				clean = false
+			}
+			return clean
+		})
+	}
+	// an unlabelled break in the branch would leave the new switch instead of the loop around the if
+	var breaks func(n ast.Node) bool
+	breaks = func(n ast.Node) bool {
+		found := false
+		ast.Inspect(n, func(m ast.Node) bool {
+			switch y := m.(type) {
+			case *ast.ForStmt, *ast.RangeStmt, *ast.SwitchStmt, *ast.TypeSwitchStmt, *ast.SelectStmt, *ast.FuncLit:
+				return m == n // a break below these belongs to them
+			case *ast.BranchStmt:
+				if y.Tok == token.BREAK && y.Label == nil {
+					found = true
+				}
+			}
+			return !found
+		})
+		return found
+	}
+	if breaks(x.Body) || x.Else != nil && breaks(x.Else) {
+		clean = false
+	}
+	if !clean {
+		return nil
+	}
+	if cl.funcs == nil {
+		cl.funcs = map[types.Object]*ast.FuncLit{}
+	}
+	sw := &ast.SwitchStmt{Switch: x.Pos(), Tag: cl.expr(ix.Index), Body: &ast.BlockStmt{Lbrace: x.Body.Lbrace, Rbrace: x.End()}}
+	prev, had := cl.funcs[hobj]
+	for i, k := range keys {
+		cl.funcs[hobj] = vals[i]
+		sw.Body.List = append(sw.Body.List, &ast.CaseClause{Case: k.Pos(), List: []ast.Expr{cl.expr(k)}, Colon: k.End(), Body: cl.stmts(x.Body.List)})
+	}
+	if had {
+		cl.funcs[hobj] = prev
+	} else {
+		delete(cl.funcs, hobj)
+	}
+	var rest []ast.Stmt
+	switch e := x.Else.(type) {
+	case *ast.BlockStmt:
+		rest = cl.stmts(e.List)
+	case nil:
+	default:
+		rest = cl.stmts([]ast.Stmt{e})
+	}
+	sw.Body.List = append(sw.Body.List, &ast.CaseClause{Case: x.End(), Colon: x.End(), Body: rest})
+	return []ast.Stmt{sw}
 }
 
 func (cl *cloner) callAssign(as *ast.AssignStmt) (*ast.CallExpr, *core.Fn) {
@@ -609,6 +878,124 @@ func (cl *cloner) inlinable(call *ast.CallExpr) *core.Fn {
 	return h
 }
 
+// onlyCalled: every mention of obj below root is the callee of a call.
+func onlyCalled(info *types.Info, root ast.Node, obj types.Object) bool {
+	ok, calls := true, 0
+	callee := map[*ast.Ident]bool{}
+	core.InspectAll(root, func(m ast.Node) bool {
+		if call, isCall := m.(*ast.CallExpr); isCall {
+			if id, isID := ast.Unparen(call.Fun).(*ast.Ident); isID && info.Uses[id] == obj {
+				callee[id] = true
+				calls++
+			}
+		}
+		if id, isID := m.(*ast.Ident); isID && info.Uses[id] == obj && !callee[id] {
+			ok = false
+		}
+		return true
+	})
+	return ok && calls > 0
+}
+
+// macro: a call, in an expression position, of a same-package helper whose
+// body is a single `return <pure expression>` (a predicate such as
+// `func endsWithCRLF(b []byte, n int) bool { return n >= 0 && b[n] == '\r' }`)
+// with plain arguments reads as that expression over the arguments.
+func (cl *cloner) macro(call *ast.CallExpr) ast.Expr {
+	if cl.in == nil || cl.in.Prog == nil || cl.pkg == nil {
+		return nil
+	}
+	if _, isID := ast.Unparen(call.Fun).(*ast.Ident); !isID {
+		if _, isSel := ast.Unparen(call.Fun).(*ast.SelectorExpr); !isSel {
+			return nil
+		}
+	}
+	f := core.CalleeFunc(cl.info, call)
+	if f == nil || f.Pkg() != cl.pkg {
+		return nil
+	}
+	h := cl.inlinable(call)
+	if h == nil || h.Obj == nil || len(h.Decl.Body.List) != 1 {
+		return nil
+	}
+	ret, ok := h.Decl.Body.List[0].(*ast.ReturnStmt)
+	if !ok || len(ret.Results) != 1 {
+		return nil
+	}
+	pureExpr := true
+	core.InspectAll(ret.Results[0], func(m ast.Node) bool {
+		switch x := m.(type) {
+		case *ast.FuncLit, *ast.CompositeLit:
+			pureExpr = false
+		case *ast.UnaryExpr:
+			if x.Op == token.AND || x.Op == token.ARROW {
+				pureExpr = false
+			}
+		case *ast.CallExpr:
+			if tv, isConv := cl.info.Types[x.Fun]; isConv && tv.IsType() {
+				return true
+			}
+			if IsBuiltin(cl.info, x, "len") || IsBuiltin(cl.info, x, "cap") {
+				return true
+			}
+			if g := core.CalleeFunc(cl.info, x); g != nil && g.Pkg() != nil && (g.Pkg().Path() == "bytes" || g.Pkg().Path() == "strings") {
+				return true
+			}
+			pureExpr = false
+		}
+		return pureExpr
+	})
+	if !pureExpr {
+		return nil
+	}
+	child := &cloner{in: cl.in, info: cl.info, pkg: cl.pkg, subst: map[types.Object]ast.Expr{}, stack: append(append([]*types.Func{}, cl.stack...), h.Obj), outer: h.Decl.Body, root: h.Decl.Body, lits: cl.lits}
+	bind := func(name *ast.Ident, arg ast.Expr) bool {
+		a := cl.expr(arg)
+		if name == nil || name.Name == "_" {
+			return cl.simple(a)
+		}
+		obj := cl.info.Defs[name]
+		if obj == nil || !cl.simple(a) {
+			return false
+		}
+		child.subst[obj] = ast.Unparen(a)
+		return true
+	}
+	if h.Decl.Recv != nil && len(h.Decl.Recv.List) == 1 {
+		sel, ok := ast.Unparen(call.Fun).(*ast.SelectorExpr)
+		if !ok {
+			return nil
+		}
+		var name *ast.Ident
+		if len(h.Decl.Recv.List[0].Names) == 1 {
+			name = h.Decl.Recv.List[0].Names[0]
+		}
+		if !bind(name, sel.X) {
+			return nil
+		}
+	}
+	k := 0
+	for _, fl := range h.Decl.Type.Params.List {
+		if len(fl.Names) == 0 {
+			if !bind(nil, call.Args[k]) {
+				return nil
+			}
+			k++
+		}
+		for _, n := range fl.Names {
+			if !bind(n, call.Args[k]) {
+				return nil
+			}
+			k++
+		}
+	}
+	out := &ast.ParenExpr{Lparen: call.Pos(), X: child.expr(ret.Results[0]), Rparen: call.End()}
+	if tv, ok := cl.info.Types[call]; ok {
+		cl.info.Types[out] = tv
+	}
+	return out
+}
+
 // closure resolves a call of a function literal bound once to a local
 // (`step := func(..) {..}; step(..)`) to a pseudo helper made of the literal.
 func (cl *cloner) closure(call *ast.CallExpr) *core.Fn {
@@ -621,6 +1008,9 @@ func (cl *cloner) closure(call *ast.CallExpr) *core.Fn {
 		return nil
 	}
 	lit, isLit := ast.Unparen(ValueOf(cl.info, cl.root, id)).(*ast.FuncLit)
+	if passed, has := cl.funcs[v]; has {
+		lit, isLit = passed, true
+	}
 	if !isLit {
 		return nil
 	}
@@ -691,6 +1081,8 @@ func (cl *cloner) dropClosureDef(as *ast.AssignStmt) bool {
 
 // inlineAssign handles `lhs := h(args)`, possibly followed by `if err != nil { A }`.
 func (cl *cloner) inlineAssign(as *ast.AssignStmt, call *ast.CallExpr, h *core.Fn, next ast.Stmt) ([]ast.Stmt, bool) {
+	next2 := cl.next2
+	cl.next2 = nil
 	pol := &retPolicy{define: as.Tok == token.DEFINE}
 	for _, l := range as.Lhs {
 		pol.lhs = append(pol.lhs, cl.expr(l))
@@ -738,6 +1130,20 @@ func (cl *cloner) inlineAssign(as *ast.AssignStmt, call *ast.CallExpr, h *core.F
 			}
 		}
 	}
+	// `x := h(..); return f(x)`: the caller's return is copied behind every return site of the helper, so
+	// that each way the helper ends reaches a return of its own (what it yields is then read per site)
+	if ret, isRet := next.(*ast.ReturnStmt); isRet && ret != nil {
+		if len(returnsOf(h.Decl.Body)) < 2 || cl.inLit > 0 {
+			return cl.inline(call, h, pol, nil), false
+		}
+		pol.after = func() []ast.Stmt {
+			if ss, _ := cl.stmt(ret, nil); ss != nil {
+				return ss
+			}
+			return []ast.Stmt{cl.node(ret).(ast.Stmt)}
+		}
+		return cl.inline(call, h, pol, nil), true
+	}
 	// jump threading into the statement that tests the results
 	var nextOK bool
 	switch n := next.(type) {
@@ -750,11 +1156,35 @@ func (cl *cloner) inlineAssign(as *ast.AssignStmt, call *ast.CallExpr, h *core.F
 		return cl.inline(call, h, pol, nil), false
 	}
 	th := &threader{cl: cl, orig: next, copy: cl.node(next).(ast.Stmt), after: cl.in.label("after"), labels: map[*ast.Stmt]string{}}
+	// a second test right behind the first (`if err != nil {..}; switch res.kind {..}`): a return whose
+	// values decide the first test to "go on" is threaded into the second one as well
+	switch n := next2.(type) {
+	case *ast.IfStmt:
+		if n.Init != nil {
+			next2 = nil
+		}
+	case *ast.SwitchStmt:
+		if n.Init != nil {
+			next2 = nil
+		}
+	default:
+		next2 = nil
+	}
+	if next2 != nil {
+		th.chain = &threader{cl: cl, orig: next2, copy: cl.node(next2).(ast.Stmt), after: cl.in.label("after"), labels: map[*ast.Stmt]string{}}
+	}
 	pol.thread = th
 	out := cl.inline(call, h, pol, nil)
 	out = append(out, th.copy)
 	if th.used {
 		out = append(out, &ast.LabeledStmt{Label: ast.NewIdent(th.after), Colon: next.End(), Stmt: &ast.EmptyStmt{Semicolon: next.End(), Implicit: true}})
+	}
+	if th.chain != nil {
+		out = append(out, th.chain.copy)
+		if th.chain.used {
+			out = append(out, &ast.LabeledStmt{Label: ast.NewIdent(th.chain.after), Colon: next2.End(), Stmt: &ast.EmptyStmt{Semicolon: next2.End(), Implicit: true}})
+		}
+		cl.used2 = true
 	}
 	return out, true
 }
@@ -785,6 +1215,10 @@ func (cl *cloner) inline(call *ast.CallExpr, h *core.Fn, pol *retPolicy, afterLa
 			child.lits = append(append([]*ast.FuncLit{}, cl.lits...), lit)
 		}
 	}
+	child.funcs = map[types.Object]*ast.FuncLit{}
+	for o, l := range cl.funcs {
+		child.funcs[o] = l
+	}
 	var pre []ast.Stmt
 	bind := func(name *ast.Ident, arg ast.Expr) {
 		if name == nil || name.Name == "_" {
@@ -794,6 +1228,11 @@ func (cl *cloner) inline(call *ast.CallExpr, h *core.Fn, pol *retPolicy, afterLa
 			return
 		}
 		obj := cl.info.Defs[name]
+		// a function literal passed for a parameter that the helper only ever calls: the calls are the literal's body
+		if lit, isLit := ast.Unparen(arg).(*ast.FuncLit); isLit && obj != nil && onlyCalled(cl.info, h.Decl.Body, obj) {
+			child.funcs[obj] = lit
+			return
+		}
 		if obj != nil && cl.simple(arg) && Assignments(cl.info, h.Decl.Body, obj) == 0 {
 			child.subst[obj] = ast.Unparen(arg)
 			return
@@ -913,6 +1352,9 @@ func (cl *cloner) rewriteReturn(ret *ast.ReturnStmt) []ast.Stmt {
 			target = l
 		}
 	}
+	if p.after != nil {
+		return append(out, p.after()...)
+	}
 	return append(out, jump(target))
 }
 
@@ -1001,11 +1443,14 @@ func ChaseDef(g *cfgq.Graph, e ast.Expr, at cfgq.Point) ast.Expr {
 					}
 					if cl, isLit := lit.(*ast.CompositeLit); isLit {
 						found := false
-						for _, el := range cl.Elts {
+						stt, _ := g.Info.TypeOf(cl).Underlying().(*types.Struct)
+						for i, el := range cl.Elts {
 							if kv, keyed := el.(*ast.KeyValueExpr); keyed {
 								if id, ok := kv.Key.(*ast.Ident); ok && id.Name == sel.Sel.Name {
 									e, at, found = ast.Unparen(kv.Value), p, true
 								}
+							} else if stt != nil && i < stt.NumFields() && stt.Field(i).Name() == sel.Sel.Name {
+								e, at, found = ast.Unparen(el), p, true
 							}
 						}
 						if found {
